@@ -197,6 +197,76 @@ def r05_5(chk, P):
     return n
 
 
+def r05_6(chk, P):
+    chk.rule('R05.6', 'the packet the managed-bitrate path hands out is one of the PACKETBLOBS encodings of the block: the value '
+             'range of every store to bitrate_manager_state.choice (joined over all functions of the bitrate manager, K4 state '
+             'invariant) lies in [0,PACKETBLOBS), and under that invariant every packetblob[] subscript of '
+             'vorbis_bitrate_flushpacket is within the array.  (The float-derived search indices inside '
+             'vorbis_bitrate_addblock are not decided.)')
+    import k4dec
+    names = ('vorbis_bitrate_init', 'vorbis_bitrate_clear', 'vorbis_bitrate_managed', 'vorbis_bitrate_addblock',
+             'vorbis_bitrate_flushpacket')
+    roots = [P.key(P.need(n)) for n in names]
+    D = k4dec.Driver(P, roots, [], setup_records=set(), state_records={'bitrate_manager_state', 'vorbis_block_internal'}, jobs=1)
+    D.run()
+    ext = P.field('vorbis_block_internal', 'packetblob').get('extent')
+    chk.require(ext, 'vorbis_block_internal.packetblob is no longer a fixed-extent array')
+    n = ext[0]
+    v = D.inv_state.get(('bitrate_manager_state', 'choice', False))
+    F = P.need('vorbis_bitrate_addblock')
+    chk.ob('R05.6', 'bitrate manager', 'choice-within-packetblobs', v is not None and v.lo >= 0 and v.hi < n, F.where(),
+           f'bitrate_manager_state.choice in {v} over all stores; packetblob has {n} entries')
+    R = D.results.get('vorbis_bitrate_flushpacket')
+    chk.require(R is not None and not R.unreached, 'vorbis_bitrate_flushpacket not analysed')
+    G = P.need('vorbis_bitrate_flushpacket')
+    k = 0
+    for st in sorted(R.sites, key=lambda s_: G.ex[s_['e']].get('loc') or [0, 0]):
+        if st['kind'] == 'sub' and 'packetblob' in st['text']:
+            chk.ob('R05.6', G.name, f'packetblob-subscript#{k}', st['ok'], st['where'], st['bound'])
+            k += 1
+    chk.require(k >= 1, 'vorbis_bitrate_flushpacket no longer indexes packetblob')
+
+
+def r05_7(chk, P):
+    chk.rule('R05.7', 'the residue encoder forms a codebook entry number as a mixed-radix number over the book\'s lattice: in '
+             'local_book_besterror every digit folded into the index (index = index*qv + digit) is provably within [0,qv) '
+             '(K4: the digit\'s range is non-negative and strictly below the radix), which is what keeps index < entries and '
+             'the written codeword one that the decoder\'s book contains')
+    import absint
+    F = P.need('local_book_besterror')
+    hits = []
+
+    def obs(A, env, e, v):
+        nd = A.ex[e]
+        if nd['k'] != 'assign' or nd['op'] != '=':
+            return
+        r = A.ex[A.F.strip_casts(nd['c'][1])]
+        l = A.ex[A.F.strip_casts(nd['c'][0])]
+        if r['k'] == 'bin' and r['op'] == '+' and l['k'] == 'ref':
+            m = A.ex[A.F.strip_casts(r['c'][0])]
+            if m['k'] == 'bin' and m['op'] == '*':
+                a, b = (A.ex[A.F.strip_casts(x)] for x in m['c'])
+                if a['k'] == 'ref' and a['decl'].get('id') == l['decl'].get('id') and b['k'] == 'ref':
+                    tmp = env.get('$tmp') or {}
+                    dx = A.F.strip_casts(r['c'][1])
+                    dv = tmp[dx] if dx in tmp else (tmp[r['c'][1]] if r['c'][1] in tmp else A.ev(env.copy(), r['c'][1]))
+                    radix = f'v{b["decl"]["id"]}'
+                    hits.append((e, dv, radix))
+    from absint import V
+    # encoder codebooks are the static lattice books: quantvals >= 1 (a book with entries has at least one lattice value)
+    A = absint.Analyzer(P, F, field_inv={('codebook', 'quantvals', False): V(1, 2 ** 31 - 1)})
+    A.observers.append(obs)
+    A.run()
+    chk.require(hits, 'local_book_besterror: no mixed-radix accumulation found')
+    seen = {}
+    for (e, dv, radix) in hits:
+        ok = dv.lo >= 0 and radix in dv.lt
+        prev = seen.get(e)
+        seen[e] = (ok and (prev[0] if prev else True), dv)
+    for i, (e, (ok, dv)) in enumerate(sorted(seen.items(), key=lambda kv: F.ex[kv[0]]['loc'])):
+        chk.ob('R05.7', F.name, f'digit-below-radix#{i}', ok, F.where(e), f'{F.s(e)[:70]}: digit {dv}')
+
+
 def run(chk, P):
     npairs, nfields = r05_1(chk, P)
     chk.floor('R05.1', 40)
@@ -205,6 +275,10 @@ def run(chk, P):
     r05_4(chk, P)
     r05_5(chk, P)
     chk.floor('R05.5', 6)
+    r05_6(chk, P)
+    chk.floor('R05.6', 2)
+    r05_7(chk, P)
+    chk.floor('R05.7', 2)
     chk.notes.append(f'R05.1: {npairs} writer/reader pairs ({[f"{a}<->{b}" for a, b in layout.PAIRS + layout.slot_pairs(P)]}), '
                      f'{nfields} aligned fields role-checked')
     chk.trusted += ['clang 14 front end', 'libogg: oggpack_write(b,v,n) appends the low n bits of v; oggpack_read(b,n) returns them',
